@@ -127,6 +127,32 @@ impl RetryPolicyWrapper {
     }
 }
 
+#[cfg(sozu_verif)]
+impl ExponentialBackoffPolicy {
+    /// Verification hook (compiled only with `--cfg sozu_verif`): put the
+    /// policy into a chosen state without sleeping through real back-off
+    /// windows. `current_tries` is clamped to `max_tries`; the policy then
+    /// behaves as if its last attempt happened `age` ago with a back-off
+    /// window of `wait` (`wait > age`: inside the window; `wait == 0`:
+    /// window elapsed).
+    pub fn verif_set(&mut self, current_tries: usize, wait: time::Duration, age: time::Duration) {
+        let now = time::Instant::now();
+        self.current_tries = cmp::min(current_tries, self.max_tries);
+        self.wait = wait;
+        self.last_try = now.checked_sub(age).unwrap_or(now);
+    }
+}
+
+#[cfg(sozu_verif)]
+impl RetryPolicyWrapper {
+    /// Verification hook forwarder for [`ExponentialBackoffPolicy::verif_set`].
+    pub fn verif_set(&mut self, current_tries: usize, wait: time::Duration, age: time::Duration) {
+        match self {
+            RetryPolicyWrapper::ExponentialBackoff(p) => p.verif_set(current_tries, wait, age),
+        }
+    }
+}
+
 impl From<ExponentialBackoffPolicy> for RetryPolicyWrapper {
     fn from(val: ExponentialBackoffPolicy) -> Self {
         RetryPolicyWrapper::ExponentialBackoff(val)
